@@ -78,16 +78,19 @@ type e2Machine struct {
 	nreset   int
 	nforeign int
 	ntxfail  int
-	dead     map[int]bool // clients whose collection was reset (they would have to reconnect)
-	held     map[int][]heldResp
-	nfault   int
-	p        E2Params
-	oracles  map[string]bool
-	sys      *sysx.System
-	cls      []*e2client
-	last     string
-	npub     int
-	fatal    *pt.Violation
+	patched  []patchDone // REST patches answered with success (schedule scenarios)
+	// REST patches of a document that already had a log which were answered with an error
+	patchRefused []string
+	dead         map[int]bool // clients whose collection was reset (they would have to reconnect)
+	held         map[int][]heldResp
+	nfault       int
+	p            E2Params
+	oracles      map[string]bool
+	sys          *sysx.System
+	cls          []*e2client
+	last         string
+	npub         int
+	fatal        *pt.Violation
 }
 
 func init() {
@@ -641,6 +644,9 @@ func (m *e2Machine) Apply(a pt.Action) (v *pt.Violation) {
 	}
 	return nil
 }
+
+// patchDone is a REST patch that was answered with success.
+type patchDone struct{ coll, key, target, answer string }
 
 // storedOps returns, per datatype id, the number of stored operations.
 func (m *e2Machine) storedOps() map[string]int {
